@@ -166,20 +166,11 @@ def run(ctx: Ctx, rep: Report, tier: str):
     # the temporary-rename flag lands on the entry whose file was moved away
     rep.rule("C03.R6", "rename_to_fix_conflict flags TEMP_RENAME on exactly the entry whose peer file it renamed (each update_entry(E, oid=new id) is followed, under "
              "temp_rename, by E.ignore(TEMP_RENAME) for the same E): otherwise a one-sided rename cycle is treated as a two-sided conflict", 2)
-    rf = ctx.prog.func("SyncManager.rename_to_fix_conflict")
-    g = ctx.cfg(rf)
-    ups = [c_ for c_ in ctx.calls(rf, "update_entry") if c_.args]
-    if not ups:
-        raise AnalysisError("rename_to_fix_conflict: update_entry calls not found")
-    tr = rf.params()[4] if len(rf.params()) > 4 else "temp_rename"
-    tests = {t.id for t in g.nodes if t.kind == "test" and pat.match(tr, t.ast) is not None}
-    for u in ups:
-        e_ = ast.unparse(u.args[0])
-        un = g.stmt_nodes_containing(u)
-        flag = lambda n, e_=e_: node_has_call(n, "%s.ignore(IgnoreReason.TEMP_RENAME)" % e_)   # noqa: E731
-        pth = g.reach([x.id for x in un], lambda n: n is g.exit, avoid=flag, follow=lambda a, b, l: l != "exc" and not (a in tests and l == "F"))
-        rep.check("C03.R6", "rename_to_fix_conflict|%s" % e_, ctx.line(rf, u), pth is None, "%s.ignore(TEMP_RENAME) follows update_entry(%s, ...) under temp_rename" % (e_, e_),
-                  "the entry whose file was renamed away (`%s`) is not the one flagged TEMP_RENAME" % e_, witness=describe_path(pth) if pth else None)
+    from rules.common import temp_rename_on_moved_entry
+    temp_rename_on_moved_entry(ctx, rep, "C03.R6")
+    from rules.common import dir_delete_rechecks_kids
+    rep.rule("C03.R8", "a folder delete that meets children on the peer is mirrored after them: children and folder are FORCE-synced on the deleting side (C04.R7)", 2)
+    dir_delete_rechecks_kids(ctx, rep, "C03.R8")
     from rules.C12 import C12
     rep.rule("C03.R5", "path translation between the roots decides membership with the SOURCE side's path rules and joins with the destination's, falling "
              "through to None (C12.Y2): otherwise one-sided changes under a differently spelled root are dropped as irrelevant", 3)
@@ -190,3 +181,6 @@ def run(ctx: Ctx, rep: Report, tier: str):
             i.rule = "C03.R5"
     rep.rules.pop("C12.Y2", None)
     rep.expect.pop("C12.Y2", None)
+    from rules.common import alias as _alias
+    from rules.C17 import C17 as _C17
+    _alias(rep, ["C17.A6", "C17.A5", "C17.A7"], "C03.R9", "change stamps strictly increase (C17.A6): every user change outdates the last refresh of its entry and is therefore re-read and mirrored", 1, lambda: _C17(ctx, rep).a5_a7())
